@@ -137,10 +137,14 @@ TStop ==
        [] Ev.kind = "exit" /\ Ev.code = 1 ->
             \/ (run = "running" /\ CanExecNow /\ NextKind \in {"exit1", "eof"} /\ SameSt(Obs(Ev), Bumped))
             \/ (run = "exit1" /\ Quiet(Ev))
-       [] Ev.kind = "fuel"  -> Ev.mayloop /\ run = "running"
+       (* the step budget of the harness ran out while instructions were still being executed: the PROGRAM is long-running (a wild jump   *)
+       (* into a sled of zero words takes up to 65,024 steps to reach 0xFE00). That says nothing against the debugger as long as every   *)
+       (* iteration was paid for (ProgressBound, below); a debugger that spins WITHOUT executing violates ProgressBound or trips the      *)
+       (* watchdog. The final-state comparison of C09 is skipped for such a session: reference and session stopped at different points. *)
+       [] Ev.kind = "fuel"  -> run = "running"
        [] Ev.kind = "panic" -> run = "running" /\ CanExecNow /\ NextKind = "unspec"
        [] OTHER -> FALSE
-  /\ Transparent(Ev)
+  /\ (Ev.kind # "fuel" => Transparent(Ev))
   /\ ProgressBound
   /\ taint' = TRUE
   /\ UNCHANGED << allvars, bad, pure >>
